@@ -39,9 +39,15 @@ ASSUMPTIONS = [
     "timing rules and signature validation are switched off in this run (they are C05's and C07's subject); num_bundles is set to the request's length",
     "declared algorithm entries whose element kind contradicts their algorithm number (an <ECDSA> element carrying a non-ECDSA number, "
     "an <EdDSA> element carrying a non-EdDSA number) are outside the region's domain (DeclaredWellFormed in C06.lean): /repo's verdict "
-    "on ECDSA/EdDSA keys then depends on set iteration order (accept or ValueError); those cases are compared model-vs-implementation only "
-    "as long as the run's own probe (the witness of C06.lean replayed on /repo) shows the dependence; once /repo no longer shows it "
-    "(proposed_fixes/C06_ec_declared_entry_order.diff) they are judged by the documented region like every other case",
+    "on ECDSA/EdDSA keys then depends on set iteration order (accept or ValueError); as long as the run's own probe (the witness of "
+    "C06.lean replayed on /repo) shows the dependence those cases are compared model-vs-implementation AND judged by the refined, "
+    "hypothesis-free region of C06_iff_spec (matching entry visited before any ill-formed entry of its element kind; judge_refined, "
+    "evaluated on the iteration order the implementation sees) instead of the literal region; the `_needed` witnesses of C06.lean are "
+    "replayed at validate_request in both visiting orders (witness_stream); once /repo no longer shows the dependence "
+    "(proposed_fixes/C06_ec_declared_entry_order.diff) every case is judged by the documented region like every other case",
+    "DeclaredWellFormed holds of every request load_ksr can build: the KSR parser chooses the element by the algorithm NUMBER "
+    "(parser_stream: exhaustive over element kinds x numbers 0..255 on the real _parse_signature_algorithms), so ill-formed declared "
+    "entries exist only in hand-built Request objects",
     "declared RSA sizes are >= 1 bit (size 0 would match a truncated RFC 3110 blob whose modulus is empty)",
     "public key texts are canonical base64 (the model declines non-canonical spellings)",
 ]
@@ -780,6 +786,160 @@ def judge(res: Result, tag: str, case: dict[str, Any], pol: dict[str, Any], impl
             res.soft_error_kind_mismatch += 1
 
 
+# ---- the `_needed` witnesses of C06.lean, replayed at validate_request ------------------------------------------
+
+
+def key_params_ordered(k: dict[str, Any], visiting: list[dict[str, Any]]) -> bool:
+    """EcdsaParamsClauseOrdered / EddsaParamsClauseOrdered of C06.lean (C06_iff_spec), written from their statements: some
+    declared entry matches the key AND every entry of the same element kind that is visited before it carries a number of that kind"""
+    alg = k["alg"]
+    fam, kind, bits_of = (DOC_ECDSA, "ecdsa", ec_bits) if alg in DOC_ECDSA else (DOC_EDDSA, "eddsa", ed_bits)
+    blob = base64.b64decode(k["pk"])
+    for i, d in enumerate(visiting):
+        matches = d["kind"] == kind and d["alg"] == alg and bits_of(blob, fam[alg]) == d["bits"]
+        if matches and all(x["alg"] in fam for x in visiting[:i] if x["kind"] == kind):
+            return True
+    return False
+
+
+def judge_refined(res: Result, tag: str, case: dict[str, Any], pol: dict[str, Any], impl: dict[str, Any], literal: dict[str, bool], req: Any) -> None:
+    """Cases OUTSIDE DeclaredWellFormed (an <ECDSA>/<EdDSA> entry with a number of another family, a key of that family present):
+    judged by the refined region of C06_iff_spec (hypothesis-free), evaluated on the visiting order the implementation itself sees."""
+    visiting = [{"kind": j["kind"], "alg": j["algorithm"], "bits": j["bits"], "exp": j["exponent"]} for j in map(lib.alg_policy_j, req.zsk_policy.algorithms)]
+    refined = dict(literal)
+    if pol["keys_match_zsk_policy"]:
+        refined["check_keys_match_zsk_policy"] = literal["check_keys_match_zsk_policy"] and all(
+            key_params_ordered(k, visiting) for b in case["bundles"] for k in b["keys"] if k["alg"] in DOC_ECDSA or k["alg"] in DOC_EDDSA)
+    rcase = {"tag": tag, "case": case, "policy": pol, "declared_visiting_order": visiting}
+    for chk in CHECKS:
+        if ("ok" in impl[chk]) != refined[chk]:
+            res.violation(f"{chk}: implementation verdict differs from the refined documented region (C06_iff_spec; declared policy not well-formed)",
+                          rcase, key=f"refined:{chk}", impl=impl[chk], refined_region_accepts=refined[chk], clauses=refined)
+    got = impl["validate_request"]
+    if ("ok" in got) != all(refined.values()):
+        res.violation("validate_request: implementation verdict differs from the refined documented region (C06_iff_spec; declared policy not well-formed)",
+                      rcase, key="refined:validate_request", impl=got, refined_region_accepts=all(refined.values()), clauses=refined)
+    if not pol["keys_match_zsk_policy"] and ("ok" in got) != all(literal.values()):  # C06_iff_spec_allowed: rule off => literal region exact
+        res.violation("validate_request: implementation verdict differs from the documented region (KSR-BUNDLE-KEYS off, C06_iff_spec_allowed)",
+                      rcase, key="refined:literal", impl=got, clauses=literal)
+    res.bump("outside-domain:judged-by-refined-region:" + ("same-as-literal" if refined == literal else "literal-accepts-refined-rejects"))
+    res.evaluations += len(CHECKS)
+
+
+def parser_stream(res: Result) -> None:
+    """Is DeclaredWellFormed ever false of a request that load_ksr can build?  Exhaustive over (element kind, also-present element,
+    algorithm number 0..255): the real `_parse_signature_algorithms` on `<SignatureAlgorithm algorithm=n><KIND size=256/>`.  The
+    parser dispatches on the NUMBER, so an entry it returns must have the element kind of its number's family (then the literal region
+    of the property text is exact for every loadable KSR, C06_iff_spec_partial); an ill-formed entry coming out of the parser would make
+    the `_needed` witnesses reachable from a KSR file and is reported as a violation with the parser input."""
+    from kskm.common.parse_utils import _parse_signature_algorithms
+
+    elem = {"rsa": "RSA", "ecdsa": "ECDSA", "eddsa": "EdDSA"}
+    fam = lambda n: "rsa" if n in DOC_RSA else "ecdsa" if n in DOC_ECDSA else "eddsa" if n in DOC_EDDSA else None  # noqa: E731
+    for kind in elem:
+        for extra in (None, *[k for k in elem if k != kind]):
+            for n in range(256):
+                value = {elem[k]: {"attrs": {"size": "256", "exponent": "65537"} if k == "rsa" else {"size": "256"}, "value": ""} for k in (kind, extra) if k}
+                data = {"attrs": {"algorithm": str(n)}, "value": value}
+                got = run_impl(lambda data=data: _parse_signature_algorithms(data), lambda r: [lib.alg_policy_j(a) for a in r])
+                res.count({"parser": [kind, extra, n]})
+                res.evaluations += 1
+                want_kind = fam(n) if fam(n) in (kind, extra) else None  # the element of the number's own family must be there
+                if "ok" in got:
+                    ents = got["ok"]
+                    good = len(ents) == 1 and ents[0]["algorithm"] == n and ents[0]["kind"] == want_kind and ents[0]["bits"] == 256
+                    res.bump("parser:declared-entry:" + (f"parsed-{ents[0]['kind']}" if ents else "empty"))
+                    if not good:
+                        res.violation("_parse_signature_algorithms returns a declared entry whose element kind contradicts its algorithm number "
+                                      "(DeclaredWellFormed no longer holds of loadable KSRs: the C06 `_needed` witnesses become reachable)",
+                                      {"parser_input": data}, key="parser:ill-formed-declared-entry", impl=got, expected_kind=want_kind)
+                else:
+                    res.bump("parser:declared-entry:refused-" + str(got.get("error", got)))
+                    if want_kind is not None:
+                        res.violation("_parse_signature_algorithms refuses a well-formed declared entry", {"parser_input": data},
+                                      key="parser:refuses-well-formed", impl=got, expected_kind=want_kind)
+
+
+def witness_cases() -> list[tuple[str, dict[str, Any], dict[str, Any], bool]]:
+    """(tag, case with the declared entries in VISITING order, policy, unrefined-region-is-exact?) — wEcReq / wEdReq / wPol of
+    C06.lean in both visiting orders, and the variants covered by C06_iff_spec_allowed (rule off / ill-formed number not allowed)"""
+    out = []
+    for fam, alg, other, blob in (("ecdsa", 13, 15, bytes(64)), ("eddsa", 15, 13, bytes(32))):
+        key = keyspec(fam[:2], alg, blob, ttl=0)
+        good = {"kind": fam, "alg": alg, "bits": 256, "exp": None}
+        bad = {"kind": fam, "alg": other, "bits": 256, "exp": None}
+        pol = {
+            "acceptable_domains": ["."], "approved_algorithms": [ALG_NAMES[13], ALG_NAMES[15]],
+            "rsa_approved_exponents": [65537], "rsa_approved_key_sizes": [2048],
+            "num_keys_per_bundle": [1], "num_different_keys_in_all_bundles": 1,
+            "keys_match_zsk_policy": True, "check_keys_match_ksk_operator_policy": True, "signature_algorithms_match_zsk_policy": True,
+            "rsa_exponent_match_zsk_policy": True, "enable_unsupported_ecdsa": True, "enable_unsupported_edwards_dsa": True,
+        }
+        other_flag = "enable_unsupported_edwards_dsa" if fam == "ecdsa" else "enable_unsupported_ecdsa"
+        for oname, decl in (("bad-first", [bad, good]), ("good-first", [good, bad])):
+            case = {"domain": ".", "bundles": [{"id": "b0", "keys": [dict(key)]}], "declared": [dict(d) for d in decl]}
+            out.append((f"witness:{fam}:{oname}:all-on", case, dict(pol), oname == "good-first"))
+            out.append((f"witness:{fam}:{oname}:keys-rule-off", case, dict(pol, keys_match_zsk_policy=False), True))
+            out.append((f"witness:{fam}:{oname}:ill-formed-number-not-allowed", case, dict(pol, **{other_flag: False}), True))
+    return out
+
+
+def witness_stream(res: Result, driver_ok: bool) -> None:
+    """Fixed cases: the witnesses of keyParams_ecdsa/eddsa_iff_needed, checkNewKey_iff_needed, keysMatch_iff_clause_needed and
+    C06_iff_spec_needed, as whole requests through validate_request and the five rule functions, the declared set visited in a fixed
+    order.  Judged (1) by the refined region of C06_iff_spec for every rule function, (2) by the property text as literally stated
+    (region()) for the composite wherever C06_iff_spec_allowed / the good visiting order make it exact, (3) against the model."""
+    todo = []
+    lines = []
+    for tag, case, pol in [(t, c, p) for t, c, p, _ in witness_cases()]:
+        req, policy = build(case, pol)
+        zp = req.zsk_policy.model_copy(update={"algorithms": [a for d in case["declared"] for a in req.zsk_policy.algorithms
+                                                              if (a.algorithm.value, type(a).__name__.lower().endswith(d["kind"])) == (d["alg"], True)]})
+        assert [a.algorithm.value for a in zp.algorithms] == [d["alg"] for d in case["declared"]]
+        req = req.model_copy(update={"zsk_policy": zp})  # a list: visited in the listed order
+        todo.append((tag, case, pol, impl_all(req, policy)))
+        lines.append({"op": "c06_all", "request": request_j(req), "policy": request_policy_j(policy), "now": 0})
+    model = run_driver(lines, exe=DRIVER) if driver_ok else [None] * len(lines)
+    exact = {t: e for t, _, _, e in witness_cases()}
+    for (tag, case, pol, impl), m in zip(todo, model):
+        res.count({"witness": tag})
+        res.evaluations += len(CHECKS)
+        res.bump("witness:" + tag.split(":", 2)[2])
+        rcase = {"tag": tag, "case": case, "policy": pol, "declared_visiting_order": case["declared"]}
+        literal = region(case, pol)
+        refined = dict(literal)
+        if pol["keys_match_zsk_policy"]:
+            refined["check_keys_match_zsk_policy"] = literal["check_keys_match_zsk_policy"] and all(
+                key_params_ordered(k, case["declared"]) for b in case["bundles"] for k in b["keys"])
+        for chk in CHECKS:  # (1) keysMatch_iff_clause / C06_iff_spec: the refined region is exact, rule by rule
+            if ("ok" in impl[chk]) != refined[chk]:
+                res.violation(f"{chk}: implementation verdict differs from the refined documented region (C06_iff_spec) on a fixed witness",
+                              rcase, key=f"witness:{chk}", impl=impl[chk], refined_region_accepts=refined[chk], clauses=refined)
+        got = impl["validate_request"]
+        if ("ok" in got) != all(refined.values()):
+            res.violation("validate_request: implementation verdict differs from the refined documented region (C06_iff_spec) on a fixed witness",
+                          rcase, key="witness:validate_request", impl=got, refined_region_accepts=all(refined.values()), clauses=refined)
+        if exact[tag]:  # (2) C06_iff_spec_allowed / good order: the property text as literally stated decides the composite
+            if ("ok" in got) != all(literal.values()):
+                res.violation("validate_request: implementation verdict differs from the documented region on a fixed witness where "
+                              "C06_iff_spec_allowed makes the literal region exact", rcase, key="witness:literal", impl=got, clauses=literal)
+        else:
+            # the property text read literally puts this request INSIDE the region (wEc_region / wEd_region of C06.lean)
+            if not all(literal.values()):
+                res.violation("harness inconsistency: the `_needed` witness is not inside the literal documented region (oracle or witness wrong)",
+                              rcase, key="oracle:witness", clauses=literal)
+            if "ok" in got:
+                res.notes.append(f"{tag}: /repo now accepts the witness of C06_iff_spec_needed (declared-entry search repaired?)")
+                res.bump("witness-outcome:literal-region-accepts:impl-accepts")
+            else:
+                res.bump("witness-outcome:literal-region-accepts:impl-" + ("violation-" + got["violation"] if "violation" in got else "error-" + str(got.get("error"))))
+                if "violation" in got:
+                    res.violation("validate_request: a policy violation is raised on a request whose every documented clause is satisfied",
+                                  rcase, key="witness:class", impl=got, clauses=literal)
+        judge(res, tag + "|witness|1", case, pol, impl, literal, m, False)  # (3) model = implementation, all six observables
+
+
+
 def run(tier: str, driver_ok: bool) -> Result:
     res = Result("C06")
     res.rule = (
@@ -813,6 +973,9 @@ def run(tier: str, driver_ok: bool) -> Result:
             res.disagreement("ecdsa_declared_order_witness does not reproduce on /repo (declared-entry search repaired? then the model and the "
                              "_partial theorems of C06.lean must follow: compare the algorithm before stripping the prefix)", {"order": order}, got, want)
 
+    if order_defect:
+        witness_stream(res, driver_ok)
+    parser_stream(res)
     if not order_defect:
         res.notes.append("declared-entry order dependence not present in this tree: malformed declared entries are judged by the documented region too")
     for family, nbs in families(tier):
@@ -837,6 +1000,8 @@ def run(tier: str, driver_ok: bool) -> Result:
                     impl = impl_all(req, policy)
                     reg = region(case, p)
                     wf = well_formed(case) or not order_defect
+                    if not wf:
+                        judge_refined(res, f"{tag}|{family}|{nb}", case, p, impl, reg, req)
                     todo.append((f"{tag}|{family}|{nb}", case, p, impl, reg, wf))
                     lines.append({"op": "c06_all", "request": request_j(req), "policy": request_policy_j(policy), "now": 0})
             # one driver call per (family, bundle count): bounded memory in the thorough tier
